@@ -59,7 +59,7 @@ def I2cmSt.machIn (s : I2cmSt) (i : I2cmIn) : I2cIn :=
 def i2cmNext (s : I2cmSt) (i : I2cmIn) : I2cmSt :=
   let mi := s.machIn i
   let m' := i2cNext 20 s.m mi
-  let stepped := mi.run || s.m.cnt == 0
+  let stepped := (mi.run && s.m.fsm == .idle) || s.m.cnt == 0
   let acc := i.cyc && i.stb && !s.busAck
   let wrX := acc && i.we && !i.adr0            -- write to the transfer register
   let d := i.datW % 256
